@@ -740,7 +740,7 @@ func (w *WalletManager) GetTxHistory(wanted int, addr string) ([]*pb.TxHistoryDe
 		return nil, ErrNoWalletInUse
 	}
 
-	if wanted == 0 {
+	if wanted <= 0 {
 		wanted = TxHistoryMax
 	}
 
